@@ -14,7 +14,14 @@ Subset
                `while` (needs a fuel expression from `sigs[fn]['fuel']`), `pass`, docstrings, `assert` is rejected
   expressions: float/int/bool constants, names, + - * / // % ** unary -, not/and/or, comparisons (chains split),
                a[i], a[i, j], a.shape[0], a.shape, len(a), calls from CALLS below, calls of other translated
-               functions of the same module, conditional expressions
+               functions of the same module, conditional expressions;
+               np.zeros / np.empty (shape[, dtype]): the dtype is the `dtype=` keyword or numpy's second positional
+               argument (float dtypes -> all-zero float array, float32 storage is not rounded; int dtypes -> int
+               array; any other argument is rejected); np.empty is modelled as np.zeros (reading an entry that was
+               never written is outside the subset's meaning)
+  mutation   : argument arrays the body stores into (`x[i] = ..`, `x[i] += ..`) are part of the result: a function that
+               returns the value v returns (v, x, ..) (the final contents of the mutated arguments, in parameter order);
+               a function that returns the tuple `a, b` returns the flat tuple (a, b, x, ..)
   types      : F float scalar, I int, B bool, V float vector, M float matrix, VZ int vector, tuples (for returns).
                Argument types come from `sigs`; everything else is inferred; int -> float coercions are explicit
                (`of_Z`), bool -> number is `b2n`.
@@ -401,7 +408,10 @@ class FnTranslator:
                 if t != V:
                     raise Unsupported("zeros_like of non-vector")
                 return "(vzeros N (zlen %s))" % arr, V
-            dt = kw.get("dtype")
+            # dtype: keyword or (numpy's signature) second positional argument; anything else is rejected
+            if len(n.args) not in (1, 2) or set(kw) - {"dtype"} or (len(n.args) == 2 and "dtype" in kw):
+                raise Unsupported("arguments of " + name)
+            dt = kw.get("dtype") if len(n.args) == 1 else n.args[1]
             dts = dotted(dt) if dt is not None else "np.float64"
             kind, sh = self.shape_arg(n.args[0], env)
             if dts in ("np.int32", "np.int64", "np.intp", "np.int8", "np.uint8", "np.bool_"):
@@ -580,7 +590,11 @@ class FnTranslator:
             if isinstance(s.value, ast.Tuple):
                 parts = [self.expr(e, env) for e in s.value.elts]
                 if self.mutated:
-                    raise Unsupported("tuple return from a function that mutates an argument")
+                    # `return a, b` from a function that stores into its argument arrays x, ..: the flat tuple (a, b, x, ..)
+                    t = tuple(p[1] for p in parts) + tuple(env[m] for m in self.mutated)
+                    self.note_ret(t)
+                    e = "(" + ", ".join([p[0] for p in parts] + [self.var(m) for m in self.mutated]) + ")"
+                    return "(Some %s)" % e if self.has_raise else e
                 return self.ret("(" + ", ".join(p[0] for p in parts) + ")", tuple(p[1] for p in parts), env)
             e, t = self.expr(s.value, env)
             return self.ret(e, t, env)
